@@ -657,13 +657,15 @@ pub fn check_drops(w: &mut World) {
         let node = &w.nodes[i];
         if node.drops == 0 {
             let m = format!("{} was never dropped (leaked)", w.path(i));
-            w.violate(Oracle::D, m);
+            let f = w.owner_family(i);
+            w.violate_f(Oracle::D, f, m);
         }
     }
     for t in 0..w.toks.len() {
         if w.toks[t].drops == 0 {
             let p = w.toks[t].producer.map(|n| w.path(n)).unwrap_or_else(|| "the harness".into());
-            w.violate(Oracle::D, format!("value t{} produced by {} was never dropped (leaked)", t, p));
+            let f = w.tok_family(t as u32);
+            w.violate_f(Oracle::DV, f, format!("value t{} produced by {} was never dropped (leaked)", t, p));
         }
     }
     // everything that was returned must have been produced by a child
@@ -677,7 +679,8 @@ pub fn check_drops(w: &mut World) {
             }
         }
         if let Some(t) = bad {
-            w.violate(Oracle::D, format!("the combinator returned a value (handle {:#x}) that no child produced", t));
+            let f = w.nodes[top].family();
+            w.violate_f(Oracle::DV, f, format!("the combinator returned a value (handle {:#x}) that no child produced", t));
         }
     }
 }
